@@ -153,7 +153,7 @@ func (fi *FuncInfo) withHelperSuccess(cs []Cond) []Cond {
 		if v, found, ok := fi.searchTest(g); ok && found {
 			if d := fi.singleDef(v); d != nil {
 				if call, isCall := ast.Unparen(d.rhs).(*ast.CallExpr); isCall {
-					if S, h := fi.C.searchRet[call], fi.C.linked[call]; S != nil && h != nil {
+					if S, h := firstRet(fi.C.searchRet[call], fi.C.successRet[call]), fi.C.linked[call]; S != nil && h != nil {
 						out = append(out, h.GuardsWithin(S, h.Decl)...)
 					}
 				}
@@ -561,6 +561,16 @@ func negatedOperands(e ast.Expr) []ast.Expr {
 func (fi *FuncInfo) searchTest(g Cond) (v *types.Var, found, ok bool) {
 	if g.Kind != "bool" {
 		return nil, false, false
+	}
+	// (index, found) form: the flag is the last result of a linked helper with one success return
+	if fv := fi.varOf(g.Expr); fv != nil && fi.C != nil {
+		if d := fi.singleDef(fv); d != nil && d.idx >= 1 {
+			if call, isCall := ast.Unparen(d.rhs).(*ast.CallExpr); isCall && fi.C.successRet[call] != nil {
+				if t := fi.Info.TypeOf(g.Expr); t != nil && isBoolType(t) {
+					return fv, !g.Neg, true
+				}
+			}
+		}
 	}
 	be, isB := ast.Unparen(g.Expr).(*ast.BinaryExpr)
 	if !isB {
